@@ -82,14 +82,19 @@ def execute(E, ops):
     """Run a history; returns list of events (op + observation)."""
     Text, sty = E["Text"], E["sty"]
     t = Text("")
+    sib = Text("")          # the object the current text was derived from; it stays alive
     events = []
     for op in ops:
         e = dict(op)
         e["exc"] = "none"
         k = op["k"]
         pieces = None
+        before = t
         try:
-            if k == "new":
+            if k == "swap":
+                t, sib = sib, t
+                before = t
+            elif k == "new":
                 t = mk(E, op["t"])
             elif k == "append_str":
                 t.append(tostr(op["str"]), sty[op["sty"]])
@@ -169,6 +174,8 @@ def execute(E, ops):
             e["pieces"] = [observe(E, p) for p in pieces]
             if 1 <= op["pick"] <= len(pieces):
                 t = pieces[op["pick"] - 1]
+        if t is not before and k != "swap":
+            sib = before
         e["obs"] = observe(E, t)
         if "render_exc" in e["obs"] and e["exc"] == "none":
             e["exc"] = "render:" + e["obs"]["render_exc"]
@@ -194,6 +201,8 @@ def roff(rng, n):
 
 
 def random_op(E, rng, n):
+    if rng.random() < 0.08:
+        return dict(k="swap")
     k = rng.choice(["append_str", "append_str", "append_text", "assemble", "join", "split", "split", "divide", "index",
                     "slice", "slice", "pad", "pad_left", "pad_right", "align", "truncate", "truncate", "right_crop",
                     "set_length", "expand_tabs", "copy", "rstrip", "rstrip_end", "remove_suffix", "stylize", "stylize",
